@@ -3871,8 +3871,10 @@ class ScoreVariant(object):
                     # add the start of the new object to the part
                     tp_new.add_starting_object(o_copy)
                     if o.end is not None:
-                        # add the end of the object to the part
-                        tp_end = part.get_or_add_point(o.end.t + delta)
+                        # add the end of the object to the part (an object
+                        # that extends beyond the segment ends with it, it
+                        # must not reach into the copies that follow)
+                        tp_end = part.get_or_add_point(min(o.end.t, end.t) + delta)
                         tp_end.add_ending_object(o_copy)
 
                 tp = tp.next
